@@ -6,6 +6,7 @@ pub mod c14;
 pub mod c15;
 pub mod c16;
 pub mod c17;
+pub mod c20;
 pub mod gen_error_variants;
 
 /// Shortest round-trip decimal literal of a float in a spelling the SCPI lexer accepts as <NRf>.
